@@ -1,3 +1,83 @@
 import B6.Driver.Common
-/-! Driver for C22 — stub (the check for this property is not built yet). -/
-def main : IO Unit := B6.Driver.run { σ := Unit, init := (), step := fun s _ _ => (s, .bad) }
+import B6.Model.VM
+import B6.Model.Simplify
+/-!
+Driver for C22.  Stateless: every line carries a whole program.
+
+ops
+  `simplify <expr>`  answer `<returned tree> ;; <argument tree afterwards>` | `panic` | `crash` | `hang`
+        model: `Simplify.simplifyBoth` (both trees).  Property clause evaluated on the implementation's
+        returned tree: `Simplify.scopeOK` (no lambda parameter left without its binder, no value moved
+        into function position) else `propfail scope`.  Otherwise a difference is `diff`.
+  `evalpair <expr>`  answer `<outcome of Evaluate e> ;; <outcome of Evaluate (Simplify e)>`
+        outcomes as in C21, query values in canonical (flattened) form on both sides (`Query.canon`,
+        `canon_denote`).
+        property predicate: the two outcomes are equal.  `ok` when they also equal the VM model's
+        outcomes for `e` and for the model's simplified tree, else `diff`.
+        When the predicate fails:
+        * the reference interpreter gives `e` and the simplified tree the same meaning, the VM model
+          predicts both implementation outcomes, and one of the trees has a closure: the difference
+          is C21's finding seen through Simplify — `class=vm-closure-registers`;
+        * the interpreter gives them different meanings and some lambda parameter is named like a
+          global function — `class=shadowed-global`;
+        * anything else is reported without a class.
+-/
+open B6.Driver B6.Model
+namespace B6.Driver.C22
+
+def fuel : Nat := 4000
+
+def renderFlat : Res Val → String
+  | .ok v => Res.render (.ok (Simplify.canonVal v))
+  | r => Res.render r
+
+def splitTwo (s : String) : Option (String × String) :=
+  match s.splitOn " ;; " with
+  | [a, b] => some (a, b)
+  | _ => none
+
+def step (_ : Unit) (op impl : String) : Unit × Verdict :=
+  match words op with
+  | "simplify" :: _ =>
+    match Expr.parse (sdrop op 9) with
+    | none => ((), .bad)
+    | some e =>
+      match Simplify.simplifyBoth Simplify.tableArgc (e.size + 1) e with
+      | none => ((), .bad)
+      | some (s, m) =>
+        let model := s.render ++ " ;; " ++ m.render
+        match splitTwo impl with
+        | none => ((), .propfail ("simplify outcome=" ++ impl))
+        | some (is, _) =>
+          match Expr.parse is with
+          | none => ((), .bad)
+          | some si =>
+            if !Simplify.scopeOK Simplify.tableArgc e si then ((), .propfail "scope")
+            else if impl == model then ((), .ok) else ((), .diff model)
+  | "evalpair" :: _ =>
+    match Expr.parse (sdrop op 9) with
+    | none => ((), .bad)
+    | some e =>
+      match simplify e, splitTwo impl with
+      | some s, some (ae, as) =>
+        let ie := renderFlat (interp fuel e)
+        let is := renderFlat (interp fuel s)
+        let me := renderFlat (VM.run fuel e)
+        let ms := renderFlat (VM.run fuel s)
+        if ie == "fuel" || is == "fuel" || me == "fuel" || ms == "fuel" then ((), .bad)
+        else if ae == as then
+          ((), if ae == me && as == ms then .ok else .diff (me ++ " ;; " ++ ms))
+        else if ie == is then
+          if ae == me && as == ms && (e.hasOpenLambda || s.hasOpenLambda) then
+            ((), .propfail "evalpair class=vm-closure-registers")
+          else ((), .propfail ("evalpair language-agrees vm-model=" ++ me ++ " ;; " ++ ms))
+        else if Simplify.shadowsGlobal e then ((), .propfail "evalpair class=shadowed-global")
+        else ((), .propfail ("evalpair meaning-changed want=" ++ ie ++ " simplified-means=" ++ is))
+      | _, _ => ((), .bad)
+  | _ => ((), .bad)
+
+def family : Family := { σ := Unit, init := (), step := step }
+
+end B6.Driver.C22
+
+def main : IO Unit := B6.Driver.run B6.Driver.C22.family
